@@ -228,8 +228,8 @@ Definition X_InvalidArgument : Z := -3.
 Definition code_or (o : option Z) (d : Z) : Z := match o with Some c => c | None => d end.
 
 (* one check: (field it is attributed to, error number when it fails, does it hold) *)
-Definition chk := (string * Z * bool)%type.
-Definition chk_ok (c : chk) : bool := snd c.
+Definition vcheck := (string * Z * bool)%type.
+Definition vcheck_ok (c : vcheck) : bool := snd c.
 
 Definition absent (f : field) (k : key) : bool := f_opt f && (k =? PROG_MARGINFI).
 
@@ -258,10 +258,10 @@ Definition deser_checks (w : world) (signers : list key) (f : field) (k : key) :
   | WUnchecked => []
   end.
 
-Definition name_checks (f : field) (l : list (Z * bool)) : list chk :=
+Definition name_checks (f : field) (l : list (Z * bool)) : list vcheck :=
   map (fun cb => (f_name f, fst cb, snd cb)) l.
 
-Definition phase1_field (w : world) (b : binding) (signers : list key) (f : field) : list chk :=
+Definition phase1_field (w : world) (b : binding) (signers : list key) (f : field) : list vcheck :=
   if f_init f then
     match bkey b (f_name f) with Some _ => [] | None => [(f_name f, A_AccountNotEnoughKeys, false)] end
   else
@@ -284,7 +284,7 @@ Definition seeds_check (w : world) (b : binding) (f : field) (k : key) : list (Z
 
 (* (2) constraints of an `init` field: seeds, then the system-program create (fails if the address is
    already in use); an address that is not a PDA must sign *)
-Definition phase2_field (w : world) (b : binding) (signers : list key) (f : field) : list chk :=
+Definition phase2_field (w : world) (b : binding) (signers : list key) (f : field) : list vcheck :=
   if f_init f then
     match bkey b (f_name f) with
     | None => []
@@ -326,7 +326,7 @@ Definition ata_checks (w : world) (b : binding) (f : field) (k : key) : list (Z 
   end.
 
 (* (3) constraints of a non-init field *)
-Definition phase3_field (w : world) (b : binding) (f : field) : list chk :=
+Definition phase3_field (w : world) (b : binding) (f : field) : list vcheck :=
   if f_init f then [] else
   match bkey b (f_name f) with
   | None => []
@@ -350,14 +350,14 @@ Definition phase3_field (w : world) (b : binding) (f : field) : list chk :=
     map (fun cb => ("?", fst cb, snd cb)) (token_checks w b f k)
   end.
 
-Definition checks (e : entry) (w : world) (b : binding) (signers : list key) : list chk :=
+Definition checks (e : entry) (w : world) (b : binding) (signers : list key) : list vcheck :=
   flat_map (phase1_field w b signers) (e_fields e) ++
   flat_map (phase2_field w b signers) (e_fields e) ++
   flat_map (phase3_field w b) (e_fields e).
 
 Inductive verdict := VOk | VRej (fld : string) (code : Z).
 
-Fixpoint first_fail (l : list chk) : verdict :=
+Fixpoint first_fail (l : list vcheck) : verdict :=
   match l with
   | [] => VOk
   | (f, c, ok) :: tl => if ok then first_fail tl else VRej f c
@@ -368,7 +368,7 @@ Definition validate (e : entry) (w : world) (b : binding) (signers : list key) :
 
 (* accepted by the account-validation phase *)
 Definition accepts (e : entry) (w : world) (b : binding) (signers : list key) : bool :=
-  forallb chk_ok (checks e w b signers).
+  forallb vcheck_ok (checks e w b signers).
 
 End Sem.
 
